@@ -121,6 +121,25 @@ theorem partition_key_reads_the_partitioned_ops :
     (∀ k, keyedState k = true → k ∈ partitionKeyOps) ∧ partitionKeyReadsSase = true := by
   refine ⟨?_, ?_, by decide⟩ <;> intro k <;> cases k <;> decide
 
+/-! ### Listed finding `C18-output-listing-loss`: what stdout shows is not what the engines emit -/
+
+/-- full-strength statement about *stdout* is false: 2500 emitted events, one worker (channel
+capacity 1000) lists 1000 of them, four workers (capacity 4000) list all — different multisets,
+although the engines emit the same events (that part is the theorems above) -/
+theorem stdout_listing_counterexample :
+    ¬ (listedBurst (1000 * 1) (List.replicate 2500 ())).Perm (listedBurst (1000 * 4) (List.replicate 2500 ())) := by
+  intro h
+  have := h.length_eq
+  simp only [listedBurst, List.length_take, List.length_replicate] at this
+  omega
+
+/-- partial: as long as the emitted events fit into the channel nothing is dropped by `try_send`
+(the judge's guard: a run is attributed to the finding only if the engines' own counter equals the
+expected number of events and the listing is a proper sub-multiset of the expected events) -/
+theorem stdout_listing_partial (capacity : Nat) (burst : List O) (h : burst.length ≤ capacity) :
+    listedBurst capacity burst = burst := by
+  simp [listedBurst, List.take_of_length_le h]
+
 /-! ### Why the premises are needed (the seeded changes, on the model) -/
 
 /-- the tumbling count-window program `T.partition_by(k).window(2).aggregate(sum, count)`:
